@@ -66,6 +66,7 @@ class Cfg:
         kw=0.3,
         vector_dists=True,
         weights=None,
+        mixed_lead=False,
     ):
         self.depth = depth
         self.kinds = list(kinds) if kinds is not None else list(ALL_KINDS)
@@ -80,6 +81,7 @@ class Cfg:
         self.kw = kw
         self.vector_dists = vector_dists
         self.weights = weights or {}
+        self.mixed_lead = mixed_lead
 
 
 def _c(rng, lo=0.3, hi=1.2):
@@ -184,7 +186,15 @@ class Gen:
             n = int(rng.integers(1 if need_args else 0, 3))
             return self.static(d1, nparams=n, ret="scalar" if (scalar_ret or rng.random() > c.literal_ret) else "literal")
         if k == "Vmap":
-            inner = self.node(d1, need_args=True, exclude=("Repeat",))
+            if rng.random() < 0.3:
+                # a static inner function with a vector-valued parameter: lets the map run
+                # along a non-leading axis of a matrix argument (in_axes=1)
+                m = int(rng.choice([2, 3]))
+                npar = int(rng.integers(1, 3))
+                specs = [spec((m,), "f")] + [spec((), "f")] * (npar - 1)
+                inner = self.static(d1, nparams=npar, arg_specs=specs)
+            else:
+                inner = self.node(d1, need_args=True, exclude=("Repeat",))
             if not inner.arg_specs or all(s[0] == "none" for s in inner.arg_specs):
                 inner = self.static(d1 - 1, nparams=1)
             n = self.size(zero_ok=True)
@@ -237,16 +247,22 @@ class Gen:
         """Branches whose shared static addresses hold equally shaped values (a lookup at an
         address that two branches fill with different shapes raises in the library's
         mask-combining code: outside the workload, noted in DESIGN.md)."""
-        out = []
-        for _ in range(nb):
-            for attempt in range(8):
-                b = self.node(d1, scalar_ret=True, exclude=("Switch", "OrElse", "Mix"))
-                if _compatible(out + [b]):
+        for _whole in range(4):
+            out = []
+            ok = True
+            for _ in range(nb):
+                for attempt in range(8):
+                    b = self.node(d1, scalar_ret=True, exclude=("Switch", "OrElse", "Mix"))
+                    if _compatible(out + [b], self.cfg.mixed_lead):
+                        out.append(b)
+                        break
+                else:
+                    ok = False
                     break
-            else:
-                b = self.pick_dist(scalar_float=True)
-            out.append(b)
-        return out
+            if ok:
+                return out
+        # bare scalar distributions are always mutually compatible
+        return [self.pick_dist(scalar_float=True) for _ in range(nb)]
 
     def size(self, zero_ok=False):
         c = self.cfg
@@ -343,7 +359,7 @@ class Gen:
         raise RuntimeError("address pool exhausted")
 
 
-def _compatible(branches):
+def _compatible(branches, allow_mixed_lead=False):
     """Addresses shared by two branches must hold equally typed, un-indexed values, and no
     branch may own a value at an address beneath which another branch owns sub-addresses.
     (Outside these bounds the library's choice-map merging raises: mask flags of different
@@ -368,7 +384,12 @@ def _compatible(branches):
     # its leaves (`constraint(idx)`), which raises on a sibling branch's scalar leaves.  So
     # either all branches start with an index level or none does.
     lead = {_leading_index(b) for b in branches}
-    return len(lead) <= 1
+    return len(lead) <= 1 or allow_mixed_lead
+
+
+def mixed_lead(node):
+    """A switch-like root whose branches mix vector-combinator and static/leaf branches."""
+    return len({_leading_index(b) for b in node.children}) > 1
 
 
 def _leading_index(node):
